@@ -55,6 +55,10 @@ struct UnitToml {
     /// `Option` (for a `Result` or an iterator the rewritten text does not compile => undecided)
     #[serde(default)]
     expand_option_combinators: bool,
+    /// R26: `cast!(A, M)` is expanded to `A.cast(M).map_err(|e| RactorErr::from(e))`, the body of `macro_rules! cast` in
+    /// ractor/src/macros.rs (checked against the file on every run: a different definition => undecided)
+    #[serde(default)]
+    expand_cast_macro: bool,
     /// R25: inside closure bodies a call of method X is renamed to the mapped name: a stand-in WITHOUT ghost parameters (closures
     /// cannot carry the tracked ghost heap), whose result is therefore unconstrained
     #[serde(default)]
@@ -324,6 +328,7 @@ struct Rewriter<'a> {
     expand_option_combinators: bool,
     chainmap: Vec<(syn::Expr, syn::Expr)>,
     closure_method_map: BTreeMap<String, String>,
+    expand_cast_macro: bool,
 }
 
 /// chainmap key/value: an expression over metavariables; a text that starts with a method name gets the receiver `__`
@@ -896,6 +901,25 @@ impl<'a> VisitMut for Rewriter<'a> {
                 }
             }
         }
+        // R26: cast!
+        if self.expand_cast_macro {
+            if let syn::Expr::Macro(m) = e {
+                if m.mac.path.segments.last().map(|x| x.ident == "cast").unwrap_or(false) {
+                    let parser = syn::punctuated::Punctuated::<syn::Expr, syn::Token![,]>::parse_terminated;
+                    if let Ok(args) = syn::parse::Parser::parse2(parser, m.mac.tokens.clone()) {
+                        if args.len() == 2 {
+                            let mut a = args[0].clone();
+                            let mut msg = args[1].clone();
+                            self.visit_expr_mut(&mut a);
+                            self.visit_expr_mut(&mut msg);
+                            *e = syn::parse_quote!(#a.cast(#msg).map_err(|vx_e| RactorErr::from(vx_e)));
+                            self.rules.insert("R26".into());
+                            return;
+                        }
+                    }
+                }
+            }
+        }
         // R23: `vec![a, b, ..]` (list form) is expanded to its meaning: a fresh vector and one push per element
         if let syn::Expr::Macro(m) = e {
             if m.mac.path.is_ident("vec") {
@@ -1390,6 +1414,22 @@ fn main() {
     )
     .unwrap_or_else(|e| die(format!("unit.toml: {}", e)));
     if let Some(f) = features_override { unit_toml.features = f; }
+    if unit_toml.expand_cast_macro {
+        let mpath = repo.join("ractor/src/macros.rs");
+        let src = std::fs::read_to_string(&mpath).unwrap_or_else(|e| die(format!("R26: {}: {}", mpath.display(), e)));
+        let f = syn::parse_file(&src).unwrap_or_else(|e| die(format!("R26: cannot parse macros.rs: {}", e)));
+        let mut ok = false;
+        for it in &f.items {
+            if let syn::Item::Macro(m) = it {
+                if m.ident.as_ref().map(|i| i == "cast").unwrap_or(false) {
+                    let body = norm_tokens(&m.mac.tokens);
+                    ok = body == "($actor:expr,$msg:expr)=>{$actor.cast($msg).map_err($crate::RactorErr::from)};";
+                    if !ok { die(format!("R26: `macro_rules! cast` is no longer the definition the rule expands ({})", body)); }
+                }
+            }
+        }
+        if !ok { die("lost anchor: `macro_rules! cast` not found in ractor/src/macros.rs"); }
+    }
     let prelude_raw = std::fs::read_to_string(unit.join("prelude.rs")).unwrap_or_else(|e| die(format!("prelude.rs: {}", e)));
     // `// @include <relative path>` lines are replaced by the file's text (shared ghost vocabulary); included files may include
     // further files (paths relative to the unit directory)
@@ -1490,6 +1530,7 @@ fn main() {
             expand_map_or_else: unit_toml.expand_map_or_else,
             expand_option_combinators: unit_toml.expand_option_combinators,
             closure_method_map: unit_toml.closure_method_map.clone(),
+            expand_cast_macro: unit_toml.expand_cast_macro,
             chainmap: unit_toml.chainmap.iter().map(|(k, v)| (parse_chain(k), parse_chain(v))).collect(),
         };
         let extra_attrs: Vec<syn::Attribute> = spec
